@@ -22,11 +22,11 @@ PROPS = {
     "C17": {
         "units": ["value64", "opeval"],
         "level": "proof",
-        "clause": "For every operator except ** , every operand value (2- and 4-state), every operand width 0..64 (0 = unsized all-bit literal), every context width 1..64 and "
+        "clause": "For every operator (for ** only the negative-exponent rule of Table 11-4), every operand value (2- and 4-state), every operand width 0..64 (0 = unsized all-bit literal), every context width 1..64 and "
                   "both signednesses, Op::eval_value_unary/eval_value_binary return the IEEE 1800 value (reference model units/opeval/harness.rs), stay in the <=64-bit "
                   "representation and keep the representation invariant; Value::{expand,trunc,select,concat,assign,set_value} and the ValueU64 primitives meet their bit-level "
                   "contracts (Kani/CBMC, loop-free harnesses over fully symbolic inputs = complete).",
-        "assumptions": ["not covered: Op::Pow, widths above 64 bits (BigUint arms), agreement of the two representations, literal parsing establishing the representation invariant",
+        "assumptions": ["not covered: Op::Pow with a non-negative exponent (BigUint::modpow), widths above 64 bits (BigUint arms), agreement of the two representations, literal parsing establishing the representation invariant",
                         "assumed: Value.signed flags of operands agree with the type-level signedness passed as `signed` (signed ==> operands signed)",
                         "machine 64-bit multiply/divide/remainder are uninterpreted in the complete proofs (rule E10) and cross-checked only at context width <= 8 (bounded stand-ins)"],
     },
@@ -62,5 +62,27 @@ PROPS = {
         "assumptions": ["not covered: the source side (token positions of ordinary tokens come from parol; comments: see C12), Emitter::push_token / Emitter::emit glue "
                         "(a hand-written mirror of the emit loop, labelled as such, shows render's postcondition discharges SourceMap::add's precondition), the external sourcemap crate",
                         "not covered: 'every output line containing a mapped identifier has at least one entry' beyond 'every anchored text yields an entry on its line'"],
+    },
+    "C32": {
+        "units": ["range"],
+        "level": "proof",
+        "clause": "Clause 'every range draw lies within its requested bounds for every width and signedness': random_table::{mask, sign_extend, get, get_range} - for every min/max: u64, "
+                  "every width <= 64, both signednesses and every value rand may return, the range handed to rand is non-empty and the returned Value has the handle's width and "
+                  "signedness, no x/z, fits the width, and read at (width, signed) lies between the two bounds in either order (Kani, loop-free, complete). "
+                  "Seed derivation derive_seed(base, name) equals FNV-1a-64 over base||name and reads nothing else (bounded in the name length; free-identifier scan of the extracted body).",
+        "assumptions": ["not covered: every scheduling clause of C32 (worker pool, dispatch order, output capture) - schedules are outside this family",
+                        "assumed: rand's random_range(lo..=hi) returns lo <= r <= hi and is deterministic for a seeded Pcg64; handle widths <= 64 (analyzer rejects wider $tb::random types)",
+                        "assumed: the call site (simulator/src/testbench.rs RandomGetRange) passes min/max as the handle-width two's-complement patterns of the requested bounds "
+                        "(a defect there - arguments narrower than a signed handle were not sign-extended - was found while deriving this precondition and repaired in /repo, see DESIGN.md 0.3)"],
+    },
+    "C36": {
+        "units": ["svlogic"],
+        "level": "proof",
+        "clause": "DPI svLogicVecVal <-> Value for everything that lands in the <=64-bit representation (1 and 2 words / widths 1..64): decode and encode follow IEEE 1800 Annex H "
+                  "(0=00, 1=10, Z=01, X=11 as aval/bval) bit by bit, padding bits are 0/0, and both round trips are the identity; Value::to_vcd_value / to_fst_bits / VcdValueIter "
+                  "report exactly the value's bits (V0/V1/X/Z resp. '0' '1' 'x' 'z', MSB first, width items) (Kani; per-bit harnesses with symbolic indices, loops bounded by the "
+                  "representation so unwinding assertions make them complete; to_fst_bits proved modularly against to_vcd_value's proved contract).",
+        "assumptions": ["not covered: widths above 64 bits (BigUint branches timed out), what Simulator::dump_variables chooses to dump and when, the VCD/FST writers",
+                        "width-0 values (unsized all-bit literals) encode to an empty array and are outside the contract"],
     },
 }
